@@ -20,6 +20,8 @@ from vlib import cstr, clist
 import runlib
 import popgen
 import specgen_metrics
+import specgen_families
+import specgen_mixed
 
 LEVEL = "translation_validation"
 
@@ -57,16 +59,21 @@ def first_diff(a, b, path="root"):
     return None if a == b else "%s (%r -> %r)" % (path, a, b)
 
 
-def order_workers(items, orders):
+def order_workers(items, orders, fresh=()):
+    """one worker process per order; the specifications listed in `fresh` are in addition compiled ALONE (each in a child forked from an
+    interpreter that never compiled anything; tools/freshworker.py, three such workers) -> (results per order, {index: result alone})"""
     d = tempfile.mkdtemp(prefix="c15_", dir=vlib.GENDIR)
     procs = []
-    for k, order in enumerate(orders):
+    fresh = list(fresh)
+    chunks = [c for c in (fresh[0::3], fresh[1::3], fresh[2::3]) if c]
+    jobs = [(o, "seedworker.py") for o in orders] + [(c, "freshworker.py") for c in chunks]
+    for k, (order, script) in enumerate(jobs):
         inp = os.path.join(d, "in_%d.json" % k)
         out = os.path.join(d, "out_%d.json" % k)
         json.dump([{"yaml": items[i]["yaml"], "arch": items[i].get("arch", False)} for i in order], open(inp, "w"))
         env = dict(os.environ)
         env["PYTHONHASHSEED"] = "0"
-        procs.append((order, out, subprocess.Popen([sys.executable, os.path.join(vlib.VERIF, "tools", "seedworker.py"), inp, out], env=env,
+        procs.append((order, out, subprocess.Popen([sys.executable, os.path.join(vlib.VERIF, "tools", script), inp, out], env=env,
                                                    stdout=subprocess.PIPE, stderr=subprocess.STDOUT)))
     res = []
     for order, out, p in procs:
@@ -77,7 +84,10 @@ def order_workers(items, orders):
         res.append({i: r[j] for j, i in enumerate(order)})
     import shutil
     shutil.rmtree(d, ignore_errors=True)
-    return res
+    alone = {}
+    for r in res[len(orders):]:
+        alone.update(r)
+    return res[:len(orders)], alone
 
 
 def buffet_teq(ctx, n):
@@ -121,21 +131,34 @@ def run(ctx):
         items.append({"yaml": y, "kind": "generated-metrics", "arch": True})
     items += list(popgen.compute_only(rng, 10 if q else 60))
     items += list(popgen.shape(rng, 15 if q else 100)) + list(popgen.occupancy(rng, 20 if q else 150)) + list(popgen.cascade(rng, 10 if q else 60))
+    # families: one Einsum / one set of names under mappings that give the same derived rank names different ancestry (tools/specgen_families.py)
+    nfam = 0
+    for _ in range(12 if q else 100):
+        fam = specgen_families.gen_family(rng)
+        nfam += 1
+        items += fam
+    # cascades with index arithmetic over a shared pool of rank names
+    items += [{"yaml": specgen_mixed.gen_mixed_cascade(rng)["yaml"], "kind": "mixed-cascade"} for _ in range(12 if q else 100)]
     bad = 0
-    stats = {"specs": 0, "with_arch": 0, "rejected": 0}
+    stats = {"specs": 0, "with_arch": 0, "rejected": 0, "families": nfam, "by_kind": {}}
     good = []
-    for it in items:
+    main_outcome = {}
+    for idx, it in enumerate(items):
         y = it["yaml"]
         arch = it.get("arch", False)
         objs = [Einsum.from_str(y), Mapping.from_str(y)] + ([Architecture.from_str(y), Bindings.from_str(y), Format.from_str(y)] if arch else [])
         before = [snap(o) for o in objs]
         try:
             t1 = str(HiFiber(*objs))
-        except Exception:
+        except Exception as e:
             stats["rejected"] += 1
+            main_outcome[idx] = type(e).__name__ + ": " + str(e)[:100]
             continue
+        main_outcome[idx] = t1
         stats["specs"] += 1
         stats["with_arch"] += 1 if arch else 0
+        kd = it.get("kind", "?").split(":")[0]
+        stats["by_kind"][kd] = stats["by_kind"].get(kd, 0) + 1
         good.append(it)
         after = [snap(o) for o in objs]
         names = ["Einsum", "Mapping", "Architecture", "Bindings", "Format"]
@@ -152,20 +175,45 @@ def run(ctx):
         except Exception as e:
             bad += 1
             ctx.violation({"kind": "recompile-fails"}, "compiling again from the same parsed objects raises %s: %s" % (type(e).__name__, str(e)[:200]), {"yaml": y})
-    # (3) order of compilation
-    n = len(good)
+    # (3) order of compilation: every generated specification (also those the main process rejected: a rejection may itself be the
+    # effect of an earlier compilation) in three orders, each against the specification compiled alone
+    n = len(items)
     o1 = list(range(n))
     o2 = list(range(n))
     rng.shuffle(o2)
     o3 = list(reversed(o1))
-    res = order_workers(good, [o1, o2, o3])
+    # the empty history is the reference where affordable (a fork per specification costs 0.2-2 s): every specification in the thorough tier; in
+    # the quick tier the accelerators, three members of every family and six mixed cascades; elsewhere the first order is the reference
+    if q:
+        fresh, per_family = [], {}
+        for i, it in enumerate(items):
+            kd = it.get("kind", "")
+            if kd.startswith("accelerator"):
+                fresh.append(i)
+            elif kd == "family":
+                per_family.setdefault(it["family"], []).append(i)
+        for fam, idxs in per_family.items():
+            fresh += rng.sample(idxs, min(3, len(idxs)))
+        fresh += [i for i, it in enumerate(items) if it.get("kind") == "mixed-cascade"][:6]
+        fresh.sort()
+    else:
+        fresh = list(range(len(items)))
+    res, alone = order_workers(items, [o1, o2, o3], fresh=fresh)
+    stats["compiled_alone"] = len(alone)
     for i in range(n):
-        outs = [r[i] for r in res]
-        texts = set(o.get("text", o.get("error")) for o in outs)
-        if len(texts) > 1:
+        outs = [("order %d (position %d)" % (k + 1, o.index(i)), r[i].get("text", r[i].get("error"))) for k, (o, r) in enumerate(zip([o1, o2, o3], res))]
+        if i in main_outcome:
+            outs.append(("checking process (position %d)" % i, main_outcome[i]))
+        ref = alone[i].get("text", alone[i].get("error")) if i in alone else outs[0][1]
+        diff = [(w, t) for w, t in outs if t != ref]
+        if diff:
             bad += 1
-            ctx.violation({"kind": "order-dependent-text"}, "the text emitted for a specification depends on which specifications were compiled before it in the same process",
-                          {"yaml": good[i]["yaml"], "positions": [o1.index(i), o2.index(i), o3.index(i)]})
+            w, t = diff[0]
+            la, lb = (ref or "").split("\n"), (t or "").split("\n")
+            fd = next(((x.strip(), y.strip()) for x, y in zip(la, lb) if x != y), (str(len(la)) + " lines", str(len(lb)) + " lines"))
+            ctx.violation({"kind": "order-dependent-text"}, "the text emitted for a specification depends on which specifications were compiled before it in the same process: "
+                          "%s `%s` but in %s `%s`" % ("alone" if i in alone else "in order 1", fd[0][:160], w, fd[1][:160]),
+                          {"yaml": items[i]["yaml"], "differs_in": [w for w, _ in diff], "alone": ref, "in_sequence": t})
     nb, bbad, bsamples = buffet_teq(ctx, 300 if q else 3000)
     for e, g, r in bbad[:5]:
         bad += 1
@@ -174,7 +222,8 @@ def run(ctx):
     ctx.coverage.update({
         "programs": stats["specs"], "disagreements_checked": bad, "evaluations": stats["specs"] * 3 + nb, "distinct_nontrivial": stats["specs"],
         "population": stats, "buffet_views_compared": nb, "compilation_orders": 3,
-        "rule": "five accelerator YAMLs + generated metrics specifications + compute-only cascades + plain partitioned/cascade specifications; per specification: snapshot equality of every parsed "
+        "rule": "five accelerator YAMLs + generated metrics specifications + compute-only cascades + plain partitioned/cascade specifications + families of 4-7 specifications sharing all names "
+                "whose mappings give the same derived rank names different ancestry (flatten-then-split vs split-then-flatten, 1-3 shape levels, occupancy levels, coord-style spacetimes) + mixed cascades with index arithmetic; per specification: snapshot equality of every parsed "
                 "object around HiFiber, recompilation from the same objects, three compilation orders in fresh processes; 300/3000 generated buffet binding lists against the model",
         "samples": bsamples or [{"spec": good[0]["kind"]}],
         "trusted_base": ["Coq 8.16.1 kernel + VM", "tools/props/c15.py snap() (observable state = vars() of the parsed objects, recursively)", "Model/BindStore.v tied by T-eq"],
